@@ -1,7 +1,9 @@
 ---------------------------- MODULE KeySpaceTrace ----------------------------
 (* code -> spec for C13.  One record per dask.compute(c1, ..., cn) call made on
    real collections:
-      [id, colls: <<[id, kind, alone, keys: <<[key, val]>>]>>, res: <<fingerprint>>, raised]
+      [id, kind |-> "tuple", colls: <<[id, kind, alone, keys: <<[key, val]>>]>>, res: <<fingerprint>>, raised]
+   or per sibling pair (KeySpace!SiblingBad)
+      [id, kind |-> "sibling", names, alone, tog, togrev, derived, want, raised]
    colls[i].alone and colls[i].keys were observed when collection i was computed
    ALONE (every key of its graph evaluated on its own).  The record is rejected
    when some res[i] differs from colls[i].alone; the extra clauses name the cause
@@ -9,7 +11,7 @@
    results that are a permutation of the expected ones).                                       *)
 EXTENDS KeySpace, TraceIO
 
-Bad(r) == TogetherBad(r.colls, r.res, r.raised)
+Bad(r) == IF r.kind = "sibling" THEN SiblingBad(r) ELSE TogetherBad(r.colls, r.res, r.raised)
 Init == TInit
 Next == TNext(Bad)
 =============================================================================
